@@ -184,6 +184,14 @@ func (d *digest) UnmarshalBinary(b []byte) error {
 	if len(b) != marshaledSize {
 		return errors.New("crypto/blake2b: invalid hash state size")
 	}
+	// The digest size and the buffer offset index into fixed-size arrays
+	// in Sum and Write: reject values MarshalBinary cannot have produced.
+	if size := int(b[len(magic)+8*8+2*8]); size < 1 || size > Size {
+		return errors.New("crypto/blake2b: invalid hash state digest size")
+	}
+	if offset := int(b[marshaledSize-1]); offset > BlockSize {
+		return errors.New("crypto/blake2b: invalid hash state buffer offset")
+	}
 	b = b[len(magic):]
 	for i := 0; i < 8; i++ {
 		b, d.h[i] = consumeUint64(b)
